@@ -299,6 +299,18 @@ func (r *Run) block(fr *frame, what string, ready func() bool) {
 }
 
 func (r *Run) deadlock(fr *frame, what string) {
+	if r.eng.cfg.EnvBoundOK && r.envFires >= r.eng.cfg.EnvFires {
+		for _, g := range r.gs {
+			if g.done || !(g.blocked || g == fr.g) {
+				continue
+			}
+			for _, c := range g.envWait {
+				if !c.envStopped {
+					panic(abortRun{reason: "envbound", detail: "timer firing budget spent while a goroutine waits for a timer"})
+				}
+			}
+		}
+	}
 	desc := ""
 	for _, g := range r.gs {
 		if !g.done && (g.blocked || g == fr.g) {
